@@ -42,6 +42,7 @@ class Gen:
     def __init__(self, rng, tables=0.25, neg=0.15, zero_src=0.0, limits=None, small_rs=False, overload=0.0, negphase=0.15):
         self.rng = rng
         self.vest = {}
+        self.made = {}               # name -> what was handed to the constructor (class, limits)
         self.p_tables = tables
         self.p_neg = neg
         self.p_zero = zero_src
@@ -147,6 +148,7 @@ class Gen:
             elif cls == "VLoss" and not isinstance(P["vdrop"], dict):
                 P["vdrop"] = _r((P["vdrop"] or 0.1) * f, 4)
         lim = self.limits(cls, name, rng) if self.limits else None
+        self.made[name] = {"cls": cls, "limits": lim}
         return {"cls": cls, "name": name, "params": P, "limits": lim}
 
     def phase_value(self, cls, rng=None):
